@@ -365,9 +365,27 @@ implementation side.  Implies `substPre0` on well-formed hosts (Proofs/CircObjSu
 def substStatic (c : Circ) (i : Nat) (m : Circ) : Bool :=
   c.nodes.contains i && substKinds c i m && noSelfLoop c i && implStatic m
 
+/-- the regular case: every output of the instance is connected, an output port of the implementation has exactly one
+input line, and a port of the implementation that becomes a fork in the host has gap-free outputs.  Together with
+`substStatic` this gives `WFc` of the result without evaluating anything along the run. -/
+def substRegular (c : Circ) (i : Nat) (m : Circ) : Bool :=
+  match implShape m with
+  | none => true
+  | some sh =>
+    (c.nobj i).outs.length == sh.outLines.length && (c.nobj i).outs.all (·.isSome) &&
+    m.io.all (fun O => decide ((m.nobj O).ins.length ≤ 1)) &&
+    m.io.all (fun n => !(forkCond m n) || (m.nobj n).outs.all (·.isSome))
+
 /-- well-formed use of `resolve_tlib_cells`: every substitution it performs is one -/
 def resolvePre (lib : Lib) (c : Circ) : Bool :=
   foldG (resolveStep lib) (fun c n => match lib.find (c.nobj n).kind with | some m => substPre c n m | none => true) c c.nodes
+
+/-- structural well-formed use of `resolve_tlib_cells`: every substitution it performs is a regular structural one
+(checked on the circuit as it is when the substitution starts; nothing inside a substitution is evaluated) -/
+def resolveStatic (lib : Lib) (c : Circ) : Bool :=
+  foldG (resolveStep lib) (fun c n => match lib.find (c.nobj n).kind with
+    | some m => substStatic c n m && substRegular c n m
+    | none => true) c c.nodes
 
 /-! ## histories with the three operations -/
 inductive Op2
